@@ -6,7 +6,7 @@ From Coq Require Import ZifyBool.
 Definition WFL (L : list (Z * lendpos)) (nl : Z) : Prop :=
   forall i l, zget L i = Some l -> 1 <= i <= nl.
 Definition WFB (L : list (Z * lendpos)) (B : list (Z * borrowpos)) (nb : Z) : Prop :=
-  forall j b, zget B j = Some b -> 1 <= j <= nb /\ exists l, zget L (b_lend b) = Some l /\ In j (l_bids l).
+  forall j b, zget B j = Some b -> 1 <= j <= nb /\ (b_liq b = false -> exists l, zget L (b_lend b) = Some l /\ In j (l_bids l)).
 
 (* what Inv08_lend / Inv08_borrow say about one published stats record *)
 Definition stat_ok (cfg : config) L B (nl nb : Z) (k : Z * Z) (s : stats) : Prop :=
@@ -59,7 +59,7 @@ Section Transitions.
     assert (Hi := Hwl i l Hg).
     split; [exact Hnl|]. split; [exact Hnb|]. split; [|split].
     - intros i' x. rewrite zget_zset. destruct (Z.eqb_spec i i'); [intros _; lia|apply Hwl].
-    - intros j b Hj. destruct (Hwb j b Hj) as (Hr & l0 & Hl0 & Hin). split; [exact Hr|].
+    - intros j b Hj. destruct (Hwb j b Hj) as (Hr & Hex). split; [exact Hr|]. intros Hq0. destruct (Hex Hq0) as (l0 & Hl0 & Hin).
       rewrite zget_zset. destruct (Z.eqb_spec i (b_lend b)) as [Heq|].
       + exists l'. split; [reflexivity|]. rewrite Hb. rewrite <- Heq, Hg in Hl0. injection Hl0 as ->. exact Hin.
       + exists l0. split; assumption.
@@ -80,7 +80,7 @@ Section Transitions.
     assert (Hi := Hwl i l Hg).
     split; [exact Hnl|]. split; [exact Hnb|]. split; [|split].
     - intros i' x. rewrite zget_zset. destruct (Z.eqb_spec i i'); [intros _; lia|apply Hwl].
-    - intros j b Hj. destruct (Hwb j b Hj) as (Hr & l0 & Hl0 & Hin). split; [exact Hr|].
+    - intros j b Hj. destruct (Hwb j b Hj) as (Hr & Hex). split; [exact Hr|]. intros Hq0. destruct (Hex Hq0) as (l0 & Hl0 & Hin).
       rewrite zget_zset. destruct (Z.eqb_spec i (b_lend b)) as [Heq|].
       + exists l'. split; [reflexivity|]. rewrite Hb. rewrite <- Heq, Hg in Hl0. injection Hl0 as ->. exact Hin.
       + exists l0. split; assumption.
@@ -106,7 +106,8 @@ Section Transitions.
   Proof.
     intros Hi. destruct HI as (Hnl & Hnb & Hwl & Hwb & HSI). unfold pledged. apply sumz_zero. intros j _.
     unfold bterm. destruct (zget B j) as [b|] eqn:Hb; [|reflexivity].
-    destruct (Hwb j b Hb) as (_ & l0 & Hl0 & _). apply Hwl in Hl0.
+    destruct (b_liq b) eqn:Hq; [rewrite andb_false_r; reflexivity|].
+    destruct (Hwb j b Hb) as (_ & Hex). destruct (Hex Hq) as (l0 & Hl0 & _). apply Hwl in Hl0.
     destruct (Z.eqb_spec (b_lend b) i); [lia|reflexivity].
   Qed.
 
@@ -125,7 +126,7 @@ Section Transitions.
     split; [lia|]. split; [exact Hnb|]. split; [|split].
     - intros i' x. rewrite zget_zset. destruct (Z.eqb_spec (nl + 1) i'); [intros _; lia|].
       intros H. apply Hwl in H. lia.
-    - intros j b Hj. destruct (Hwb j b Hj) as (Hr & l0 & Hl0 & Hin). split; [exact Hr|].
+    - intros j b Hj. destruct (Hwb j b Hj) as (Hr & Hex). split; [exact Hr|]. intros Hq0. destruct (Hex Hq0) as (l0 & Hl0 & Hin).
       exists l0. split; [|exact Hin]. rewrite zget_zset_other; [exact Hl0|]. apply Hwl in Hl0. lia.
     - intros k x Hget. unfold stat_ok. rewrite (to_nat_succ nl Hnl).
       rewrite <- (of_to_succ nl Hnl). rewrite <- (of_to_succ nl Hnl) in Hfresh, Hnone, E3.
@@ -137,26 +138,24 @@ Section Transitions.
 
   (* --- a lend position without open borrows deleted --- *)
   Lemma T_dellend i l s s' S' :
-    zget L i = Some l -> l_bids l = [] ->
+    zget L i = Some l -> (forall j b, zget B j = Some b -> b_liq b = false -> b_lend b <> i) ->
     pget S (lkey l) = Some s ->
     s_bor s' = s_bor s -> s_sbor s' = s_sbor s -> s_bids s' = s_bids s ->
     s_lend s' = s_lend s - l_avail l -> s_lids s' = remove_sorted i (s_lids s) ->
     (forall k, pget S' k = if peqb (lkey l) k then Some s' else pget S k) ->
     InvB cfg (zdel L i) B S' nl nb.
   Proof.
-    intros Hg Hb Hs E1 E2 E4 El E3 HS. destruct HI as (Hnl & Hnb & Hwl & Hwb & HSI).
+    intros Hg Hnob Hs E1 E2 E4 El E3 HS. destruct HI as (Hnl & Hnb & Hwl & Hwb & HSI).
     assert (Hi := Hwl i l Hg).
-    assert (Hnob : forall j b, zget B j = Some b -> b_lend b <> i).
-    { intros j b Hj Heq. destruct (Hwb j b Hj) as (_ & l0 & Hl0 & Hin). rewrite Heq, Hg in Hl0.
-      injection Hl0 as <-. rewrite Hb in Hin. exact Hin. }
     assert (Hp : pledged B (Z.to_nat nb) i = 0).
     { unfold pledged. apply sumz_zero. intros j _. unfold bterm. destruct (zget B j) as [b|] eqn:Hj; [|reflexivity].
-      destruct (Z.eqb_spec (b_lend b) i) as [Heq|]; [exfalso; exact (Hnob j b Hj Heq)|reflexivity]. }
+      destruct (b_liq b) eqn:Hq; [rewrite andb_false_r; reflexivity|].
+      destruct (Z.eqb_spec (b_lend b) i) as [Heq|]; [exfalso; exact (Hnob j b Hj Hq Heq)|reflexivity]. }
     split; [exact Hnl|]. split; [exact Hnb|]. split; [|split].
     - intros i' x. rewrite zget_zdel. destruct (i =? i'); [discriminate|apply Hwl].
-    - intros j b Hj. destruct (Hwb j b Hj) as (Hr & l0 & Hl0 & Hin). split; [exact Hr|].
+    - intros j b Hj. destruct (Hwb j b Hj) as (Hr & Hex). split; [exact Hr|]. intros Hq0. destruct (Hex Hq0) as (l0 & Hl0 & Hin).
       exists l0. split; [|exact Hin]. rewrite zget_zdel.
-      destruct (Z.eqb_spec i (b_lend b)) as [Heq|]; [exfalso; exact (Hnob j b Hj (eq_sym Heq))|exact Hl0].
+      destruct (Z.eqb_spec i (b_lend b)) as [Heq|]; [exfalso; exact (Hnob j b Hj Hq0 (eq_sym Heq))|exact Hl0].
     - intros k x Hget. unfold stat_ok.
       rewrite (lend_sum_del L B _ _ k i l Hg Hp) by lia. rewrite (lids_del L _ k i l Hg).
       split_key HS Hget (lkey l) k.
@@ -174,10 +173,10 @@ Section Transitions.
     InvB cfg L (zset B j b') S nl nb.
   Proof.
     intros Hg El Ep Ei Eo Es Eq. destruct HI as (Hnl & Hnb & Hwl & Hwb & HSI).
-    destruct (Hwb j b Hg) as (Hj & l0 & Hl0 & Hin0).
+    destruct (Hwb j b Hg) as (Hj & Hex).
     split; [exact Hnl|]. split; [exact Hnb|]. split; [exact Hwl|]. split.
     - intros j' x. rewrite zget_zset. destruct (Z.eqb_spec j j') as [<-|]; [|apply Hwb].
-      intros H. injection H as <-. split; [exact Hj|]. exists l0. rewrite El. split; assumption.
+      intros H. injection H as <-. split; [exact Hj|]. rewrite Eq, El. exact Hex.
     - intros k x Hget. destruct (HSI _ _ Hget) as (A1 & A2 & A3 & A4 & A5). unfold stat_ok.
       rewrite (lend_sum_shift L B (zset B j b') (Z.to_nat nl) (Z.to_nat nb) (Z.to_nat nb) k (b_lend b) (bdelta b 0)).
       2:{ intros i. rewrite (pledged_upd B (Z.to_nat nb) j b b' i Hg El Eq) by lia. rewrite Ei, Z.sub_diag. reflexivity. }
@@ -198,13 +197,13 @@ Section Transitions.
     InvB cfg (zset L (b_lend b) l') (zset B j b') S nl nb.
   Proof.
     intros Hg Hq Hl Hk Hb Ha El Ep Ei Eo Es Eq. destruct HI as (Hnl & Hnb & Hwl & Hwb & HSI).
-    destruct (Hwb j b Hg) as (Hj & l0 & Hl0 & Hin0). rewrite Hl in Hl0. injection Hl0 as <-.
+    destruct (Hwb j b Hg) as (Hj & Hex). destruct (Hex Hq) as (l0 & Hl0 & Hin0). rewrite Hl in Hl0. injection Hl0 as <-.
     assert (Hi := Hwl _ l Hl).
     split; [exact Hnl|]. split; [exact Hnb|]. split; [|split].
     - intros i' y. rewrite zget_zset. destruct (Z.eqb_spec (b_lend b) i'); [intros _; lia|apply Hwl].
     - intros j' y. rewrite zget_zset. destruct (Z.eqb_spec j j') as [<-|].
-      + intros H. injection H as <-. split; [exact Hj|]. exists l'. rewrite El, zget_zset_same, Hb. split; [reflexivity|exact Hin0].
-      + intros Hj'. destruct (Hwb j' y Hj') as (Hr & l1 & Hl1 & Hin1). split; [exact Hr|].
+      + intros H. injection H as <-. split; [exact Hj|]. intros _. exists l'. rewrite El, zget_zset_same, Hb. split; [reflexivity|exact Hin0].
+      + intros Hj'. destruct (Hwb j' y Hj') as (Hr & Hex'). split; [exact Hr|]. intros Hq0. destruct (Hex' Hq0) as (l1 & Hl1 & Hin1).
         rewrite zget_zset. destruct (Z.eqb_spec (b_lend b) (b_lend y)) as [Heq|].
         * exists l'. split; [reflexivity|]. rewrite Hb. rewrite <- Heq, Hl in Hl1. injection Hl1 as ->. exact Hin1.
         * exists l1. split; assumption.
@@ -243,10 +242,10 @@ Section Transitions.
     InvB cfg L (zset B j b') S' nl nb.
   Proof.
     intros Hg Hq Hk Hs El Ep Ei Eo Es Eq (F1 & F2 & F3) F4 HS. destruct HI as (Hnl & Hnb & Hwl & Hwb & HSI).
-    destruct (Hwb j b Hg) as (Hj & l0 & Hl0 & Hin0).
+    destruct (Hwb j b Hg) as (Hj & Hex).
     split; [exact Hnl|]. split; [exact Hnb|]. split; [exact Hwl|]. split.
     - intros j' y. rewrite zget_zset. destruct (Z.eqb_spec j j') as [<-|]; [|apply Hwb].
-      intros H. injection H as <-. split; [exact Hj|]. exists l0. rewrite El. split; assumption.
+      intros H. injection H as <-. split; [exact Hj|]. rewrite Eq, El. exact Hex.
     - intros k y Hget. unfold stat_ok.
       rewrite (lend_sum_shift L B (zset B j b') (Z.to_nat nl) (Z.to_nat nb) (Z.to_nat nb) k (b_lend b) (bdelta b 0)).
       2:{ intros i. rewrite (pledged_upd B (Z.to_nat nb) j b b' i Hg El Eq) by lia. rewrite Ei, Z.sub_diag. reflexivity. }
@@ -266,6 +265,36 @@ Section Transitions.
         rewrite !(odelta_other b k0 k _ d Hk Ek). repeat split; congruence || lia.
   Qed.
 
+  (* --- an open borrow without collateral is flagged as handed over: its principal leaves the totals --- *)
+  Lemma T_flag j b b' k0 s s' S' :
+    zget B j = Some b -> b_liq b = false -> b_in b = 0 -> bkey cfg b = Some k0 -> pget S k0 = Some s ->
+    b_pair b' = b_pair b -> b_liq b' = true ->
+    stat_out s s' (b_stable b) (- b_out b) -> s_bids s' = s_bids s ->
+    (forall k, pget S' k = if peqb k0 k then Some s' else pget S k) ->
+    InvB cfg L (zset B j b') S' nl nb.
+  Proof.
+    intros Hg Hq Hin Hk Hs Ep Eq (F1 & F2 & F3) F4 HS. destruct HI as (Hnl & Hnb & Hwl & Hwb & HSI).
+    destruct (Hwb j b Hg) as (Hj & _).
+    split; [exact Hnl|]. split; [exact Hnb|]. split; [exact Hwl|]. split.
+    - intros j' y. rewrite zget_zset. destruct (Z.eqb_spec j j') as [<-|]; [|apply Hwb].
+      intros H. injection H as <-. split; [exact Hj|]. rewrite Eq. discriminate.
+    - intros k y Hget. unfold stat_ok.
+      rewrite (lend_sum_shift L B (zset B j b') (Z.to_nat nl) (Z.to_nat nb) (Z.to_nat nb) k (b_lend b) (bdelta b (- b_in b))).
+      2:{ intros i. rewrite (pledged_flag B (Z.to_nat nb) j b b' i Hg Eq) by lia. reflexivity. }
+      2:{ intros l Hl. apply Hwl in Hl. lia. }
+      rewrite !(bor_sum_flag cfg B (Z.to_nat nb) j b b' _ k Hg Eq) by lia.
+      rewrite (bids_upd cfg B (Z.to_nat nb) k j b b' Hg Ep). rewrite Hin. cbn [Z.opp]. rewrite bdelta_0.
+      assert (Z0 : (match zget L (b_lend b) with Some l => if peqb (lkey l) k then 0 else 0 | None => 0 end) = 0).
+      { destruct (zget L (b_lend b)) as [lx|]; [destruct (peqb (lkey lx) k)|]; reflexivity. }
+      rewrite Z0, Z.add_0_r.
+      split_key HS Hget k0 k.
+      + destruct (HSI _ _ Hs) as (A1 & A2 & A3 & A4 & A5).
+        destruct (odelta_self b k0 (- b_out b) Hk Hq) as (O1 & O2).
+        destruct (b_stable b); cbn in O1, O2; rewrite O1, O2; destruct F3 as (F3 & F3'); repeat split; congruence || lia.
+      + destruct (HSI _ _ Hget) as (A1 & A2 & A3 & A4 & A5).
+        rewrite !(odelta_other b k0 k _ _ Hk Ek). repeat split; congruence || lia.
+  Qed.
+
   (* --- a new borrow position against lend position i0 --- *)
   Lemma T_newborrow i0 l l' bn k0 s s' S' :
     zget L i0 = Some l -> lkey l' = lkey l -> l_avail l' = l_avail l - b_in bn -> l_bids l' = l_bids l ++ [nb + 1] ->
@@ -279,9 +308,9 @@ Section Transitions.
     split; [exact Hnl|]. split; [lia|]. split; [|split].
     - intros i' y. rewrite zget_zset. destruct (Z.eqb_spec i0 i'); [intros _; lia|apply Hwl].
     - intros j' y. rewrite zget_zset. destruct (Z.eqb_spec (nb + 1) j') as [<-|].
-      + intros H. injection H as <-. split; [lia|]. exists l'. rewrite El, zget_zset_same, Hb. split; [reflexivity|].
+      + intros H. injection H as <-. split; [lia|]. intros _. exists l'. rewrite El, zget_zset_same, Hb. split; [reflexivity|].
         apply in_or_app. right. left. reflexivity.
-      + intros Hj'. destruct (Hwb j' y Hj') as (Hr & l1 & Hl1 & Hin1). split; [lia|].
+      + intros Hj'. destruct (Hwb j' y Hj') as (Hr & Hex'). split; [lia|]. intros Hq0. destruct (Hex' Hq0) as (l1 & Hl1 & Hin1).
         rewrite zget_zset. destruct (Z.eqb_spec i0 (b_lend y)) as [Heq|].
         * exists l'. split; [reflexivity|]. rewrite Hb. rewrite <- Heq, Hl in Hl1. injection Hl1 as ->.
           apply in_or_app. left. exact Hin1.
@@ -323,7 +352,7 @@ Section Transitions.
     split; [exact Hnl|]. split; [exact Hnb|]. split; [|split].
     - intros i' y. rewrite zget_zset. destruct (Z.eqb_spec (b_lend b) i'); [intros _; lia|apply Hwl].
     - intros j' y. rewrite zget_zdel. destruct (Z.eqb_spec j j') as [|Hne]; [discriminate|].
-      intros Hj'. destruct (Hwb j' y Hj') as (Hr & l1 & Hl1 & Hin1). split; [exact Hr|].
+      intros Hj'. destruct (Hwb j' y Hj') as (Hr & Hex'). split; [exact Hr|]. intros Hq0. destruct (Hex' Hq0) as (l1 & Hl1 & Hin1).
       rewrite zget_zset. destruct (Z.eqb_spec (b_lend b) (b_lend y)) as [Heq|].
       + exists l'. split; [reflexivity|]. rewrite Hb. rewrite <- Heq, Hl in Hl1. injection Hl1 as ->.
         apply In_remove_sorted_other; [exact Hin1|congruence].
@@ -350,3 +379,65 @@ Section Transitions.
         destruct (peqb (lkey l) k); repeat split; congruence || lia.
   Qed.
 End Transitions.
+
+(* --- liquidationsV2 UpdateLockedBorrows: a position is handed over to an auction.  Its collateral
+   leaves the lend position's pool-asset total, its principal leaves the borrow totals, the lend
+   record keeps its AvailableToBorrow (only AmountIn is rewritten).  Composed of: the collateral
+   goes back to AvailableToBorrow (T_pledge, x = - collateral), the empty position is flagged
+   (T_flag), AvailableToBorrow and TotalLend drop by the collateral (T_lend). --- *)
+Lemma T_handover cfg L B S nl nb j b b' l l' k0 s1 s1' S1 s2 s2' S2 :
+  InvB cfg L B S nl nb ->
+  zget B j = Some b -> b_liq b = false -> zget L (b_lend b) = Some l -> bkey cfg b = Some k0 ->
+  b_lend b' = b_lend b -> b_pair b' = b_pair b -> b_stable b' = b_stable b -> b_liq b' = true ->
+  lkey l' = lkey l -> l_bids l' = l_bids l -> l_avail l' = l_avail l ->
+  pget S k0 = Some s1 -> stat_out s1 s1' (b_stable b) (- b_out b) -> s_bids s1' = s_bids s1 ->
+  (forall k, pget S1 k = if peqb k0 k then Some s1' else pget S k) ->
+  pget S1 (lkey l) = Some s2 -> same_books s2 s2' -> s_lend s2' = s_lend s2 - b_in b ->
+  (forall k, pget S2 k = if peqb (lkey l) k then Some s2' else pget S1 k) ->
+  InvB cfg (zset L (b_lend b) l') (zset B j b') S2 nl nb.
+Proof.
+  intros HI Hg Hq Hl Hk El Ep Es Eq Lk Lb La Hs1 F1 F1b HS1 Hs2 F2 F2l HS2.
+  set (b1 := upd_borrow b 0 (b_out b) (b_brd b) (b_int b) (b_res b) (b_liq b)).
+  set (l1 := upd_lend l (l_in l) (l_avail l + b_in b) (l_rewards l) (l_tracker l) (l_bids l)).
+  assert (H1 : InvB cfg (zset L (b_lend b) l1) (zset B j b1) S nl nb).
+  { apply (T_pledge cfg L B S nl nb HI j b b1 l l1 (- b_in b)); try assumption; try reflexivity; cbn [l1 b1 upd_lend upd_borrow l_avail b_in]; lia. }
+  assert (H2 : InvB cfg (zset L (b_lend b) l1) (zset (zset B j b1) j b') S1 nl nb).
+  { apply (T_flag cfg _ _ _ _ _ H1 j b1 b' k0 s1 s1' S1); try assumption; try reflexivity; try apply zget_zset_same; try exact Hk. }
+  assert (H3 : InvB cfg (zset (zset L (b_lend b) l1) (b_lend b) l') (zset (zset B j b1) j b') S2 nl nb).
+  { apply (T_lend cfg _ _ _ _ _ H2 (b_lend b) l1 l' s2 s2' S2); try assumption; try apply zget_zset_same;
+      cbn [l1 upd_lend l_bids l_avail]; try assumption; try lia. }
+  rewrite !zset_zset in H3. exact H3.
+Qed.
+
+(* the same when the lend record is deleted (its AmountIn is exhausted): sound only when nothing
+   else is left on it *)
+Lemma T_handover_del cfg L B S nl nb j b b' l k0 s1 s1' S1 s2 s2' S2 :
+  InvB cfg L B S nl nb ->
+  zget B j = Some b -> b_liq b = false -> zget L (b_lend b) = Some l -> bkey cfg b = Some k0 ->
+  b_lend b' = b_lend b -> b_pair b' = b_pair b -> b_stable b' = b_stable b -> b_liq b' = true ->
+  l_avail l = 0 ->
+  (forall j' y, zget B j' = Some y -> j' <> j -> b_liq y = false -> b_lend y <> b_lend b) ->
+  pget S k0 = Some s1 -> stat_out s1 s1' (b_stable b) (- b_out b) -> s_bids s1' = s_bids s1 ->
+  (forall k, pget S1 k = if peqb k0 k then Some s1' else pget S k) ->
+  pget S1 (lkey l) = Some s2 ->
+  s_bor s2' = s_bor s2 -> s_sbor s2' = s_sbor s2 -> s_bids s2' = s_bids s2 ->
+  s_lend s2' = s_lend s2 - b_in b -> s_lids s2' = remove_sorted (b_lend b) (s_lids s2) ->
+  (forall k, pget S2 k = if peqb (lkey l) k then Some s2' else pget S1 k) ->
+  InvB cfg (zdel L (b_lend b)) (zset B j b') S2 nl nb.
+Proof.
+  intros HI Hg Hq Hl Hk El Ep Es Eq La Hno Hs1 F1 F1b HS1 Hs2 G1 G2 G3 G4 G5 HS2.
+  set (sm := set_s_lend s2 (s_lend s2 - b_in b)).
+  assert (H3 : InvB cfg (zset L (b_lend b) l) (zset B j b') (pset S1 (lkey l) sm) nl nb).
+  { apply (T_handover cfg L B S nl nb j b b' l l k0 s1 s1' S1 s2 sm (pset S1 (lkey l) sm) HI); try assumption; try reflexivity.
+    - repeat split.
+    - intros k. apply pget_pset. }
+  rewrite <- (zdel_zset L (b_lend b) l).
+  apply (T_dellend cfg _ _ _ _ _ H3 (b_lend b) l sm s2' S2); try assumption.
+  - apply zget_zset_same.
+  - intros j' y. rewrite zget_zset. destruct (Z.eqb_spec j j') as [<-|Hne].
+    + intros E. injection E as <-. rewrite Eq. discriminate.
+    + intros E Hqy. apply (Hno j' y E); [congruence|exact Hqy].
+  - rewrite pget_pset, peqb_refl. reflexivity.
+  - cbn [sm set_s_lend s_lend]. lia.
+  - intros k. rewrite HS2, pget_pset. destruct (peqb (lkey l) k); reflexivity.
+Qed.
